@@ -180,7 +180,54 @@ def gen(rng, tier):
             steps.append({"x": x, "step": sl, "forces": fl, "q": ql})
         cases.append({"lines": lines, "meta": {"callback": {"after": after, "smp": smp, "k": kf, "c": c0, "w": w, "fs": fs, "es": es, "two": two, "steps": steps},
                                                "queries": [], "ncmd": 0, "expect_counts": []}, "nontrivial": True})
+    # components switched off and on by script (`cv colvar xi cvcflags`): value and total force as the script reports them against the
+    # closed forms for the components that are on (a linear combination: sum c_i q_i, total force sum c_i f_i / sum c_i^2 over the active ones)
+    for k in range(4 if tier == "quick" else 30):
+        coef = [1.0, rng.choice([3.0, 0.5]), rng.choice([2.0, -1.5])][:2 + (k % 2)]
+        comps = "".join(" distanceZ {\n  name c%d\n  componentCoeff %s\n  main { atomNumbers %d }\n  ref { dummyAtom (0.0, 0.0, 0.0) }\n  axis (0.0, 0.0, 1.0)\n  oneSiteTotalForce on\n }\n"
+                        % (i, num(c), i + 1) for i, c in enumerate(coef))
+        conf = "colvar {\n name xi\n outputTotalForce on\n%s}\n" % comps
+        lines = ["m.new %d" % len(coef), "M.noclock", "m.opt tf_same 1", "m.opt smp %s" % ["none", "cvcs"][k % 2], cfg(conf), "S.names cvs=xi biases="]
+        n = len(coef)
+        sched = [[1] * n] + [rng.choice([[1, 0, 1], [0, 1, 1], [1, 0, 0], [0, 1, 0], [0, 0, 1], [1, 1, 0]])[:n] if n == 3 else rng.choice([[1, 0], [0, 1]]) for _ in range(7)]
+        if n == 2:
+            sched = [[1, 1], [1, 0], [0, 1], [0, 1], [1, 0], [1, 1], [0, 1], [1, 0]]
+        steps = []
+        for fl in sched:
+            if not any(fl):
+                fl = [1] * n
+            lines.append("m.script cv colvar xi cvcflags " + esc(" ".join(map(str, fl))))
+            z = [rng.uniform(-2, 2) for _ in range(n)]; fz = [rng.uniform(-3, 3) for _ in range(n)]
+            for a in range(n):
+                lines += [pos(a, rng.uniform(-1, 1), rng.uniform(-1, 1), z[a]), tf(a, rng.uniform(-1, 1), rng.uniform(-1, 1), fz[a])]
+            lines.append("m.step"); sl = len(lines)
+            lines.append("m.script cv colvar xi value"); vl = len(lines)
+            lines.append("m.script cv colvar xi gettotalforce"); tl = len(lines)
+            lines.append("m.cv xi ft"); el = len(lines)
+            steps.append({"flags": fl, "z": z, "fz": fz, "step": sl, "value": vl, "tf": tl, "engine": el})
+        cases.append({"lines": lines, "meta": {"flags": {"coef": coef, "steps": steps}, "queries": [], "ncmd": 0, "expect_counts": []}, "nontrivial": True})
     return cases
+
+
+def flags_oracle(fm, out):
+    c = fm["coef"]
+    for i, st in enumerate(fm["steps"]):
+        act = [j for j, f in enumerate(st["flags"]) if f]
+        val = sum(c[j] * st["z"][j] for j in act)
+        ft = sum(c[j] * st["fz"][j] for j in act) / sum(c[j] ** 2 for j in act)
+        rv = vals(out, st["value"], "res"); rt = vals(out, st["tf"], "res")
+        gv = nums(unesc(rv[0])) if rv else None
+        gt = nums(unesc(rt[0])) if rt else None
+        how = "components %s on (coefficients %s)" % ("".join(str(f) for f in st["flags"]), c)
+        if not gv or abs(gv[0] - val) > 1e-9 * max(1.0, abs(val)):
+            return ["step %d, %s set by cv colvar xi cvcflags: cv colvar xi value returns %r, the active components give %r" % (i, how, gv, val)]
+        if not gt or abs(gt[0] - ft) > 1e-9 * max(1.0, abs(ft)):
+            return ["step %d, %s set by cv colvar xi cvcflags: cv colvar xi gettotalforce returns %r; the engine's forces on the active components give "
+                    "sum c f / sum c^2 = %r (a variable configured with only these components reports that)" % (i, how, gt, ft)]
+        ev = vals(out, st["engine"], "ft")
+        if ev is None or abs(ev[0] - ft) > 1e-9 * max(1.0, abs(ft)):
+            return ["step %d, %s: the module's own total force of xi is %r, expected %r" % (i, how, ev, ft)]
+    return []
 
 
 def callback_oracle(cb, out):
@@ -232,6 +279,8 @@ def oracle(case, out):
     L = case["lines"]
     if case["meta"].get("callback"):
         return callback_oracle(case["meta"]["callback"], out)
+    if case["meta"].get("flags"):
+        return flags_oracle(case["meta"]["flags"], out)
     # translator cross-check: the regenerated table equals the table of the running library
     for i, line in enumerate(L, 1):
         if line == "s.table":
